@@ -90,8 +90,11 @@ func NewFilterFS(fs FS, opt *FilterOpt) (FS, error) {
 			return nil, err
 		}
 		if targets != nil {
+			// targets come back sorted and de-duplicated; the caller's own
+			// patterns are an ordered list in which later entries override
+			// earlier ones ("!" exceptions), so none of them may be dropped
+			// as a "path below" an earlier one
 			includePatterns = append(includePatterns, targets...)
-			includePatterns = dedupePaths(includePatterns)
 		}
 	}
 
